@@ -259,6 +259,14 @@ type c17In struct {
 	Matches []string          `json:"matches_hex"`
 	Keys    map[string]string `json:"keys_hex"`
 	W       int               `json:"goroutines"`
+	// shared-state probe: the same compiled expression is evaluated at the same time against this
+	// context and against the peers (other matches: other list contents, other named keys)
+	Peers []c17Peer `json:"peers,omitempty"`
+	Iter  int       `json:"iterations,omitempty"`
+}
+type c17Peer struct {
+	Matches []string          `json:"matches_hex"`
+	Keys    map[string]string `json:"keys_hex"`
 }
 type c17Out struct {
 	Template  string `json:"template"`
@@ -469,6 +477,10 @@ func c17Tags(in *c17In) (tags []string, nontrivial bool) {
 	add("root=" + in.Expr.Op)
 	add(fmt.Sprintf("depth=%d", in.Expr.depth()))
 	add(fmt.Sprintf("goroutines=%d", in.W))
+	if len(in.Peers) > 0 {
+		add("shared-state-probe")
+		nontrivial = true
+	}
 	in.Expr.walk(func(x *Expr, inSub bool) {
 		add("uses:" + x.Op)
 		switch x.Op {
@@ -1013,6 +1025,245 @@ func c17Fixed(tier string) (ins []*c17In, heavy []bool) {
 	return
 }
 
+
+// ---------------------------------------------------------------- shared-state probes
+// One compiled expression, several matches: state that an implementation keeps per compiled
+// expression (instead of per evaluation) is invisible to a single goroutine and to goroutines that
+// all evaluate the same match; it shows when goroutines evaluate the SAME compiled expression against
+// DIFFERENT contexts at the same time ({0}/{1} bindings and the parent match of one evaluation leak
+// into another).  Every context of a group is a case of its own (the model predicts its value).
+
+func hx(s string) string { return hex.EncodeToString([]byte(s)) }
+
+// context number v of a probe group: {0} a list of 1-5 marked elements (some with ':'-separated parts),
+// {1} a list of numbers, keys k / name / lim
+func probeCtx(r *Rng, v int) ([]string, map[string]string) {
+	mark := string(rune('p' + v))
+	n := r.Range(1, 5)
+	l := make([]string, n)
+	for i := range l {
+		switch r.Intn(5) {
+		case 0:
+			l[i] = mark + Pick(r, []string{"a", "b", "ab"}) + ":" + mark + Pick(r, []string{"c", "", "1"})
+		case 1:
+			l[i] = mark
+		case 2:
+			l[i] = mark + fmt.Sprint(r.Range(0, 99))
+		default:
+			l[i] = mark + Pick(r, []string{"a", "b", "ab", "ba", "abc", "é"})
+		}
+	}
+	nums := make([]string, r.Range(1, 5))
+	for i := range nums {
+		nums[i] = fmt.Sprint(r.Range(-50, 50) + 1000*v)
+	}
+	k := Pick(r, l)
+	if r.Chance(1, 3) {
+		k = mark
+	}
+	keys := map[string]string{hx("k"): hx(k), hx("name"): hx(mark + "N"), hx("lim"): hx(fmt.Sprint(r.Range(1, 5)))}
+	return []string{hx(strings.Join(l, "\x00")), hx(strings.Join(nums, "\x00"))}, keys
+}
+
+func cat(parts ...*Expr) *Expr { return &Expr{Op: "cat", Args: parts} }
+
+// expressions over {0} (list), {1} (numbers) and the keys k, name, lim whose sub-expressions read
+// {0}/{1} twice and a named key of the enclosing match
+func probeExpr(r *Rng) *Expr {
+	L := func() *Expr { return arg(0) }
+	mapF := func() *Expr {
+		switch r.Intn(4) {
+		case 0:
+			return cat(arg(0), lit("-"), key("k"), lit("-"), arg(0))
+		case 1:
+			return fn("if", fn("eq", arg(0), key("k")), key("name"), cat(arg(0), arg(0)))
+		case 2:
+			return cat(fn("prefix", arg(0), key("k")), lit("/"), arg(0))
+		default:
+			return cat(fn("eq", cat(arg(0), key("k")), cat(key("k"), arg(0))), arg(0), key("name"))
+		}
+	}
+	pred := func() *Expr {
+		switch r.Intn(4) {
+		case 0:
+			return fn("eq", arg(0), key("k"))
+		case 1:
+			return fn("not", fn("eq", arg(0), key("k")))
+		case 2:
+			return fn("prefix", arg(0), key("k"))
+		default:
+			return fn("if", fn("eq", fn("len", arg(0)), lit("3")), arg(0), fn("eq", cat(arg(0), arg(0)), cat(key("k"), key("k"))))
+		}
+	}
+	red := func() *Expr {
+		switch r.Intn(3) {
+		case 0:
+			return cat(arg(0), lit("+"), arg(1), key("k"))
+		case 1:
+			return fn("if", fn("prefix", arg(1), key("k")), cat(arg(0), arg(1), arg(1)), cat(arg(0), key("name")))
+		default:
+			return cat(arg(1), arg(0), arg(1))
+		}
+	}
+	sp := func(a *Expr, d string) *Expr { return &Expr{Op: "@split", S: hx(d), Args: []*Expr{a}} }
+	jn := func(a *Expr, d string) *Expr { return &Expr{Op: "@join", S: hx(d), Args: []*Expr{a}} }
+	forNoKey := func(start *Expr) *Expr { // no key inside cond/incr: outside the domain of C17-for-parent-context
+		return fn("@for", start, fn("not", fn("eq", arg(1), lit(fmt.Sprint(r.Range(1, 4))))), cat(arg(0), lit("."), arg(0)))
+	}
+	switch r.Intn(12) {
+	case 0:
+		return fn("@map", L(), mapF())
+	case 1:
+		return fn("@filter", L(), pred())
+	case 2:
+		e := fn("@reduce", L(), red())
+		if r.Bool() {
+			e.S = hx("i")
+		}
+		return e
+	case 3:
+		return &Expr{Op: "@reduce", Args: []*Expr{arg(1), fn("sumi", arg(0), arg(1))}}
+	case 4: // @for, start from a key (evaluated in the enclosing match), sub-expressions read {0} twice
+		return forNoKey(cat(lit("s"), key("name")))
+	case 5: // @for whose sub-expressions read a key of the enclosing match
+		return fn("@for", cat(lit("s"), key("name")), fn("not", fn("eq", arg(1), key("lim"))), cat(arg(0), key("k")))
+	case 6: // a helper nested inside a sub-expression
+		return fn("@map", L(), jn(fn("@map", sp(arg(0), ":"), cat(arg(0), key("k"), arg(0))), "+"))
+	case 7:
+		return fn("@filter", fn("@map", L(), mapF()), pred())
+	case 8:
+		return fn("@reduce", fn("@filter", L(), pred()), red())
+	case 9: // @for inside @map
+		return fn("@map", L(), jn(forNoKey(arg(0)), "+"))
+	case 10:
+		return fn("@map", L(), jn(fn("@filter", sp(arg(0), ":"), fn("not", fn("eq", cat(arg(0), arg(0)), cat(key("k"), key("k"))))), "|"))
+	default:
+		return &Expr{Op: "arr", Args: []*Expr{fn("@map", L(), mapF()), fn("@filter", L(), pred()), fn("@len", fn("@map", L(), mapF()))}}
+	}
+}
+
+const probeContexts = 4
+
+func c17ProbeGroup(r *Rng) []*c17In {
+	e := probeExpr(r)
+	iter := 2000 + r.Intn(2000)
+	w := Pick(r, []int{2, 4, 8})
+	ms := make([][]string, probeContexts)
+	ks := make([]map[string]string, probeContexts)
+	for v := range ms {
+		ms[v], ks[v] = probeCtx(r, v)
+	}
+	var group []*c17In
+	for v := range ms {
+		in := &c17In{Expr: e, Matches: ms[v], Keys: ks[v], W: w, Iter: iter}
+		for u := range ms {
+			if u != v {
+				in.Peers = append(in.Peers, c17Peer{Matches: ms[u], Keys: ks[u]})
+			}
+		}
+		group = append(group, in)
+	}
+	return group
+}
+
+// w goroutines evaluate kb at the same time, goroutine g against context g mod len(ctxs), iter times each;
+// returns for every context the first result that differs from the sequential one ("" = none)
+func c17ProbeRun(kb *expressions.CompiledKeyBuilder, ctxs []*mctx, want []string, w, iter int) []string {
+	notes := make([]string, len(ctxs))
+	var mu sync.Mutex
+	var wg sync.WaitGroup
+	start := make(chan struct{})
+	if w < 2*len(ctxs) {
+		w = 2 * len(ctxs) // every context is evaluated by two goroutines at least
+	}
+	for g := 0; g < w; g++ {
+		wg.Add(1)
+		go func(v int) {
+			defer wg.Done()
+			defer func() {
+				if e := recover(); e != nil {
+					mu.Lock()
+					if notes[v] == "" {
+						notes[v] = "concurrent evaluation against different matches: panic: " + fmt.Sprint(e)
+					}
+					mu.Unlock()
+				}
+			}()
+			<-start
+			for i := 0; i < iter; i++ {
+				if s := kb.BuildKey(ctxs[v]); s != want[v] {
+					mu.Lock()
+					if notes[v] == "" {
+						notes[v] = "concurrent evaluation of the same compiled expression against different matches returned " +
+							hex.EncodeToString([]byte(s)) + ", sequential " + hex.EncodeToString([]byte(want[v]))
+					}
+					mu.Unlock()
+					return
+				}
+			}
+		}(g % len(ctxs))
+	}
+	done := make(chan struct{})
+	go func() { wg.Wait(); close(done) }()
+	close(start)
+	select {
+	case <-done:
+	case <-time.After(120 * time.Second):
+		mu.Lock()
+		for v := range notes {
+			if notes[v] == "" {
+				notes[v] = "concurrent evaluation did not finish within 120s"
+			}
+		}
+		mu.Unlock()
+	}
+	mu.Lock()
+	defer mu.Unlock()
+	return append([]string(nil), notes...)
+}
+
+// runs the probe of a group whose members are ins[idx...]; members share the first member's compiled expression
+func c17ProbeApply(ins []*c17In, cps []*compiled, outs []c17Out, idx []int) {
+	var kb *expressions.CompiledKeyBuilder
+	var ctxs []*mctx
+	var want []string
+	var who []int
+	for _, i := range idx {
+		if cps[i] == nil || !outs[i].Completed {
+			continue
+		}
+		if kb == nil {
+			kb = cps[i].kb
+		}
+		b, _ := hex.DecodeString(outs[i].Out)
+		ctxs, want, who = append(ctxs, cps[i].ctx), append(want, string(b)), append(who, i)
+	}
+	if len(ctxs) < 2 {
+		return
+	}
+	// sequential sanity with the shared builder (the builder of the first member, every context)
+	for j := range ctxs {
+		if s, ok, note := guarded(func() string { return kb.BuildKey(ctxs[j]) }, 60*time.Second); !ok || s != want[j] {
+			// the value must not depend on which compilation of the expression is used or on what was evaluated before
+			outs[who[j]].Completed, outs[who[j]].Out = false, ""
+			outs[who[j]].Note = "sequential evaluation with the group's shared compiled expression: " + note + " " + hex.EncodeToString([]byte(s)) + ", own compilation " + hex.EncodeToString([]byte(want[j]))
+			return
+		}
+	}
+	t0 := time.Now()
+	kb.BuildKey(ctxs[0])
+	iter := ins[idx[0]].Iter
+	if d := time.Since(t0); d > 200*time.Microsecond { // keep one group below about a second
+		iter = int(200*time.Microsecond*time.Duration(iter)/d) + 50
+	}
+	notes := c17ProbeRun(kb, ctxs, want, ins[idx[0]].W, iter)
+	for j, note := range notes {
+		if note != "" {
+			outs[who[j]].Completed, outs[who[j]].Out, outs[who[j]].Note = false, "", note
+		}
+	}
+}
+
 func c17Gen(r *Rng, n int, tier string) []Case {
 	ins, heavy := c17Fixed(tier)
 	for len(ins) < n {
@@ -1046,12 +1297,30 @@ func c17Gen(r *Rng, n int, tier string) []Case {
 			ins, heavy = append(ins, in), append(heavy, true)
 		}
 	}
+	// shared-state probes: groups of probeContexts cases with one expression
+	var groups [][]int
+	ngroups := n / 30
+	if tier == "thorough" && ngroups > 400 {
+		ngroups = 400
+	}
+	pr := r.Fork()
+	for k := 0; k < ngroups; k++ {
+		var idx []int
+		for _, in := range c17ProbeGroup(pr) {
+			idx = append(idx, len(ins))
+			ins, heavy = append(ins, in), append(heavy, false)
+		}
+		groups = append(groups, idx)
+	}
 	cps := make([]*compiled, len(ins))
 	outs := make([]c17Out, len(ins))
 	for i, in := range ins {
 		cps[i], outs[i] = c17Run(in)
 	}
 	c17Concurrent(r.Fork(), cps, outs, ins, heavy)
+	for _, idx := range groups {
+		c17ProbeApply(ins, cps, outs, idx)
+	}
 	cases := make([]Case, len(ins))
 	for i := range ins {
 		cases[i] = c17Case(ins[i], outs[i])
@@ -1068,6 +1337,7 @@ func main() {
 			"(empty, white-space-only, numeric, multi-byte, invalid UTF-8 elements) given as a match group, {@ ..} of literals, @split of a joined string, @range or a slice of a longer list; " +
 			"delimiters of 0-4 bytes incl. multi-byte runes and self-overlapping ones; indices/lengths in [-n-3, n+3]; sub-expressions over {0} {1} {2..} {-1} named keys literals and eq/not/if/prefix/len/sumi/concatenation nested to depth 3, incl. helpers nested inside a sub-expression; " +
 			"each compiled expression is evaluated once sequentially and then 3 times from each of 1-8 goroutines concurrently with all other cases of the run (any differing result fails the case). " +
+			"shared-state probes: n/30 groups of 4 cases with ONE compiled expression (@map/@filter/@reduce/@for and nestings whose sub-expressions read {0}/{1} twice and a named key of the enclosing match) and 4 different contexts (different list contents, different keys); 8 goroutines evaluate the shared compiled expression simultaneously, each against its own context, 2000-4000 times, and every result must equal the sequential result for that context. " +
 			"distinct = distinct (expression, match groups, keys); non-trivial = a list of >= 2 elements, a negative or out-of-range index, a multi-byte delimiter, a named key or nested helper inside a sub-expression.",
 		Gen: c17Gen,
 		Replay: func(d json.RawMessage) (Case, error) {
@@ -1085,6 +1355,30 @@ func main() {
 			outs := []c17Out{out}
 			if in.W > 1 {
 				c17Concurrent(NewRng(1), []*compiled{cp}, outs, []*c17In{in}, []bool{false})
+			}
+			if len(in.Peers) > 0 && cp != nil && outs[0].Completed {
+				// rebuild the group: this context and its peers, one compiled expression; a divergence on any
+				// of them fails the replayed case
+				ins := []*c17In{in}
+				cps := []*compiled{cp}
+				for _, p := range in.Peers {
+					pin := &c17In{Expr: in.Expr, Matches: p.Matches, Keys: p.Keys, W: in.W, Iter: in.Iter}
+					s, ok, _ := guarded(func() string { return cp.kb.BuildKey(pin.ctx()) }, 60*time.Second)
+					ins, cps = append(ins, pin), append(cps, &compiled{kb: cp.kb, ctx: pin.ctx()})
+					outs = append(outs, c17Out{Completed: ok, Out: hex.EncodeToString([]byte(s))})
+				}
+				idx := make([]int, len(ins))
+				for i := range idx {
+					idx[i] = i
+				}
+				for rep := 0; rep < 5 && outs[0].Completed; rep++ {
+					c17ProbeApply(ins, cps, outs, idx)
+					for i := 1; i < len(outs); i++ {
+						if !outs[i].Completed && outs[i].Note != "" && outs[0].Completed {
+							outs[0].Completed, outs[0].Out, outs[0].Note = false, "", "peer context: "+outs[i].Note
+						}
+					}
+				}
 			}
 			return c17Case(in, outs[0]), nil
 		},
